@@ -126,7 +126,7 @@ func (c *checker) writeEvidence(wall time.Duration, code int) {
 			"queries":                       queries,
 			"solver_time_s":                 solverTime.Seconds(),
 			"term_nodes":                    nodes,
-			"solver_versions":               []string{solverVersion("z3", "--version")},
+			"solver_versions":               []string{c.solver + ": " + solverVersion(c.solver, "--version")},
 			"functions_encoded":             c.prop.Functions,
 			"source_sha256":                 hashes,
 			"package_init_instructions":     initInstrs,
